@@ -124,12 +124,31 @@ impl MockStream {
     }
 }
 
+/// Liveness guard: code that keeps calling read on a stream that only ever answers "end of
+/// stream" or the same error is spinning (a real socket answers the same way for ever). After
+/// 200 000 such calls the calling thread is parked for good - a busy loop becomes a blocked
+/// thread, which the harnesses observe as "never finished" - and the event is counted.
+static RUNAWAYS: std::sync::atomic::AtomicUsize = std::sync::atomic::AtomicUsize::new(0);
+pub fn runaways() -> usize {
+    RUNAWAYS.load(std::sync::atomic::Ordering::SeqCst)
+}
+const RUNAWAY_LIMIT: usize = 200_000;
+fn park_for_good() -> ! {
+    RUNAWAYS.fetch_add(1, std::sync::atomic::Ordering::SeqCst);
+    loop {
+        std::thread::sleep(std::time::Duration::from_secs(3600));
+    }
+}
+
 impl Read for MockStream {
     fn read(&mut self, buf: &mut [u8]) -> io::Result<usize> {
         if self.points {
             crate::verif_hooks::point("io.read");
         }
         self.read_calls += 1;
+        if self.read_calls > RUNAWAY_LIMIT && !buf.is_empty() {
+            park_for_good();
+        }
         let limit = match &self.read_plan {
             ReadPlan::Full => self.input.len(),
             ReadPlan::Prefix(n) => (*n).min(self.input.len()),
